@@ -129,15 +129,18 @@ theorem nn_catsInt_length (env : Env) (d : NNDom) : (d.catsInt env).length = d.c
   unfold NNDom.catsInt NNDom.nums
   split_ifs <;> simp
 
+theorem nn_dist_ne_nil (env : Env) (d : NNDom) (h : d.cats ≠ []) (w : ℚ) :
+    (d.catsInt env).map (fun y => absRat (y - w)) ≠ [] := by
+  intro hh
+  have := congrArg List.length hh
+  rw [List.length_map, nn_catsInt_length, List.length_nil] at this
+  exact h (List.length_eq_zero_iff.mp this)
+
 theorem nnIdx_lt (env : Env) (d : NNDom) (h : d.cats ≠ []) (w : ℚ) : nnIdx env d w < d.cats.length := by
   have hpos : 0 < d.cats.length := List.length_pos_iff.mpr h
   unfold nnIdx
   split_ifs with h1
-  · have hne : (d.catsInt env).map (fun y => absRat (y - w)) ≠ [] := by
-      intro hh
-      have := congrArg List.length hh
-      simp [nn_catsInt_length] at this
-      omega
+  · have hne := nn_dist_ne_nil env d h w
     have := argminFirst_lt _ hne
     simpa [nn_catsInt_length] using this
   · exact hpos
@@ -235,7 +238,7 @@ theorem nn_catsInt_lt {env : Env} {d : NNDom} (hok : d.ok = true) (hmono : LogMo
 theorem nn_catsInt_getElem? (env : Env) (d : NNDom) (k : ℕ) :
     (d.catsInt env)[k]? = (d.cats[k]?).map (fun v => d.toInternal env (v.num?.getD 0)) := by
   unfold NNDom.catsInt NNDom.nums NNDom.toInternal
-  split_ifs <;> simp [List.getElem?_map]
+  split_ifs <;> simp [List.getElem?_map, Function.comp_def]
 
 /-- the nearest neighbour of an internal value that is listed is that entry -/
 theorem nnIdx_exact {env : Env} {d : NNDom} (hok : d.ok = true) (hmono : LogMono env d.log)
@@ -245,11 +248,8 @@ theorem nnIdx_exact {env : Env} {d : NNDom} (hok : d.ok = true) (hmono : LogMono
   unfold nnIdx
   split_ifs with h1
   · set dist := (d.catsInt env).map (fun y => absRat (y - t)) with hdist
-    have hne : dist ≠ [] := by
-      intro hh
-      have := congrArg List.length hh
-      simp [hdist, nn_catsInt_length] at this
-      omega
+    have hne : dist ≠ [] :=
+      nn_dist_ne_nil env d (by intro hh; rw [hh] at h1; simp at h1) t
     obtain ⟨m, hm, hmin, _⟩ := argminFirst_spec dist hne
     have hdk : dist[k]? = some 0 := by
       simp [hdist, List.getElem?_map, hk, absRat]
@@ -290,5 +290,384 @@ theorem nn_cast_self {env : Env} {d : NNDom} (hok : d.ok = true) (hmono : LogMon
   rw [hx] at this
   simp only [NNDom.cast, hx]
   exact this
+
+/-! ### bounds of the internal range -/
+
+theorem diffs_sum_nonneg : ∀ (xs : List ℚ), xs.Pairwise (· < ·) → 0 ≤ (diffs xs).sum
+  | [], _ => by simp [diffs]
+  | [a], _ => by simp [diffs]
+  | a :: b :: rest, h => by
+    have h1 : a < b := (List.pairwise_cons.mp h).1 b (by simp)
+    have ih := diffs_sum_nonneg (b :: rest) (List.pairwise_cons.mp h).2
+    simp only [diffs, List.sum_cons]
+    linarith
+
+theorem avgDist_nonneg {xs : List ℚ} (h : xs.Pairwise (· < ·)) : 0 ≤ avgDist xs := by
+  unfold avgDist
+  exact mul_nonneg (by norm_num) (div_nonneg (diffs_sum_nonneg xs h) (Nat.cast_nonneg _))
+
+theorem le_getLastD : ∀ (l : List ℚ) (a0 : ℚ), l.Pairwise (· < ·) → (∀ y ∈ l, a0 ≤ y) →
+    a0 ≤ l.getLastD a0 ∧ ∀ t ∈ l, t ≤ l.getLastD a0
+  | [], a0, _, _ => by simp
+  | b :: l, a0, hp, h0 => by
+    have hb : ∀ y ∈ l, b ≤ y := fun y hy => le_of_lt ((List.pairwise_cons.mp hp).1 y hy)
+    obtain ⟨i1, i2⟩ := le_getLastD l b (List.pairwise_cons.mp hp).2 hb
+    rw [List.getLastD_cons]
+    refine ⟨le_trans (h0 b (by simp)) i1, ?_⟩
+    intro t ht
+    rcases List.mem_cons.mp ht with rfl | ht
+    · exact i1
+    · exact i2 t ht
+
+/-- every internal value lies inside `[_lower_int, _upper_int]` -/
+theorem nn_bounds_mem {env : Env} {d : NNDom} (hok : d.ok = true) (hmono : LogMono env d.log)
+    {lo hi : ℚ} (hl : d.lowerInt env = some lo) (hu : d.upperInt env = some hi)
+    {t : ℚ} (ht : t ∈ d.catsInt env) : lo ≤ t ∧ t ≤ hi := by
+  have hp := nn_catsInt_pairwise hok hmono
+  have havg := avgDist_nonneg hp
+  unfold NNDom.lowerInt at hl
+  unfold NNDom.upperInt at hu
+  simp only at hl hu
+  split at hl
+  · rename_i hlen
+    simp only [hlen, if_true] at hu
+    injection hl with hl
+    injection hu with hu
+    subst hl; subst hu
+    generalize d.catsInt env = ci at *
+    cases ci with
+    | nil => simp at ht
+    | cons a rest =>
+      have h1 : a ≤ t := by
+        rcases List.mem_cons.mp ht with rfl | ht'
+        · exact le_refl _
+        · exact le_of_lt ((List.pairwise_cons.mp hp).1 t ht')
+      have ha : ∀ y ∈ rest, a ≤ y := fun y hy => le_of_lt ((List.pairwise_cons.mp hp).1 y hy)
+      obtain ⟨i1, i2⟩ := le_getLastD rest a (List.pairwise_cons.mp hp).2 ha
+      have h2 : t ≤ (a :: rest).getLastD 0 := by
+        rw [List.getLastD_cons]
+        rcases List.mem_cons.mp ht with rfl | ht'
+        · exact i1
+        · exact i2 t ht'
+      simp only [List.headD_cons]
+      constructor <;> linarith
+  · cases hl
+
+/-! ### the encoder `HyperparameterRangeOrdinalNearestNeighbor` -/
+
+private theorem nn_pyEq_refl (v : Val) : v.pyEq v = true := by
+  cases v <;> simp [Val.pyEq, Val.num?]
+
+private theorem nn_pyIn_of_mem {v : Val} {l : List Val} (h : v ∈ l) : pyIn v l = true := by
+  unfold pyIn
+  exact List.any_eq_true.mpr ⟨v, h, nn_pyEq_refl v⟩
+
+theorem mkOrdNN_ok {env : Env} {c : Consts} {choices : List Val} {log : Bool}
+    {active : Option (List Val)} {r : OrdNN} (hmk : mkOrdNN env c choices log active = .ok r) :
+    1 < choices.length ∧ (NNDom.mk choices log).ok = true ∧ r.dom = ⟨choices, log⟩ ∧
+    ∃ aL aU lo hi, nnActiveBounds env c ⟨choices, log⟩ active = .ok (aL, aU) ∧
+      (NNDom.mk choices log).lowerInt env = some lo ∧ (NNDom.mk choices log).upperInt env = some hi ∧
+      mkCont env c lo hi .lin aL aU = .ok r.rcont := by
+  unfold mkOrdNN at hmk
+  simp only at hmk
+  split at hmk
+  · rename_i h1
+    split at hmk
+    · rename_i aL aU lo hi hb hl hu
+      split at hmk
+      · rename_i rc hrc
+        injection hmk with hmk
+        subst hmk
+        exact ⟨h1.1, h1.2, rfl, aL, aU, lo, hi, hb, hl, hu, hrc⟩
+      · cases hmk
+    · cases hmk
+    · cases hmk
+  · cases hmk
+
+/-- **decoded values are listed choices**; the code rejects exactly the inputs outside
+`[-EPS, 1+EPS]` -/
+theorem ordnn_decode_member {env : Env} {c : Consts} {choices : List Val} {log : Bool}
+    {active : Option (List Val)} {r : OrdNN} (hmk : mkOrdNN env c choices log active = .ok r)
+    (x : ℚ) :
+    (-c.eps ≤ x ∧ x ≤ 1 + c.eps → ∃ v, r.decode env c x = .ok v ∧ v ∈ choices) ∧
+    (¬(-c.eps ≤ x ∧ x ≤ 1 + c.eps) → r.decode env c x = .error .assertion) := by
+  obtain ⟨hlen, hok, hdom, aL, aU, lo, hi, hb, hl, hu, hc⟩ := mkOrdNN_ok hmk
+  obtain ⟨core, hcore, hwb⟩ := mkCont_ok hc
+  obtain ⟨_, _, _, hrc, _, _⟩ := withBounds_ok hwb
+  have hd := cont_decode_member (c := c) hcore x
+  have hne : (NNDom.mk choices log).cats ≠ [] := by
+    intro hh; simp only at hh; rw [hh] at hlen; simp at hlen
+  unfold OrdNN.decode OrdNN.decodePre
+  rw [hrc, hdom]
+  constructor
+  · intro hx
+    obtain ⟨w, hw, _⟩ := hd.1 hx
+    rw [hw]
+    exact nn_castInt_member env ⟨choices, log⟩ hne w
+  · intro hx
+    rw [hd.2 hx]
+
+/-- **encodings lie in the unit interval** -/
+theorem ordnn_encode_cube {env : Env} {c : Consts} {r : OrdNN} {v : Val} {x : ℚ}
+    (h : r.encode env c v = .ok x) : 0 ≤ x ∧ x ≤ 1 := by
+  unfold OrdNN.encode at h
+  split at h
+  · split at h
+    · exact cont_encode_cube h
+    · cases h
+  · cases h
+
+/-- **round trip of a listed choice**: exact -/
+theorem ordnn_roundtrip {env : Env} {c : Consts} {choices : List Val} {log : Bool}
+    {active : Option (List Val)} {r : OrdNN} (hmk : mkOrdNN env c choices log active = .ok r)
+    (heps : 0 ≤ c.eps) (hmono : LogMono env log) {v : Val} (hv : v ∈ choices) :
+    ∃ x, r.encode env c v = .ok x ∧ r.decode env c x = .ok v := by
+  obtain ⟨hlen, hok, hdom, aL, aU, lo, hi, hb, hl, hu, hc⟩ := mkOrdNN_ok hmk
+  obtain ⟨core, hcore, hwb⟩ := mkCont_ok hc
+  obtain ⟨_, _, _, hrc, _, _⟩ := withBounds_ok hwb
+  have hv' : v ∈ (NNDom.mk choices log).cats := hv
+  obtain ⟨y, hy⟩ := nn_num_some hok hv'
+  obtain ⟨k, hk⟩ := List.mem_iff_getElem?.mp hv'
+  have hmono' : LogMono env (NNDom.mk choices log).log := hmono
+  have hci : ((NNDom.mk choices log).catsInt env)[k]? =
+      some ((NNDom.mk choices log).toInternal env y) := by
+    rw [nn_catsInt_getElem?, hk, Option.map_some, hy]; rfl
+  obtain ⟨h1, h2⟩ := nn_bounds_mem hok hmono' hl hu (List.mem_of_getElem? hci)
+  obtain ⟨x, e1, e2⟩ := cont_roundtrip hcore heps (scaleOK_lin env lo hi) h1 h2
+  have hexact := nn_castInt_exact (env := env) hok hmono' hk
+  rw [hy] at hexact
+  refine ⟨x, ?_, ?_⟩
+  · unfold OrdNN.encode
+    rw [hdom, hrc]
+    simp only [nn_pyIn_of_mem hv, if_true, hy]
+    exact e1
+  · unfold OrdNN.decode OrdNN.decodePre
+    rw [hrc, e2, hdom]
+    exact hexact
+
+/-! ### active sub-range -/
+
+/-- In a strictly increasing list, if `w` is beyond the midpoint between the entries `fp-1`, `fp`
+and before the midpoint between the entries `last`, `last+1`, the first nearest entry has its
+index in `[fp, last]`. -/
+theorem argmin_window {ci : List ℚ} (hp : ci.Pairwise (· < ·)) (w : ℚ) {fp last : ℕ}
+    (hlast : last < ci.length) (hfl : fp ≤ last)
+    (hL : ∀ (_ : 0 < fp), (ci[fp]'(by omega) + ci[fp - 1]'(by omega)) / 2 < w)
+    (hU : ∀ (h1 : last + 1 < ci.length), w < (ci[last] + ci[last + 1]) / 2) :
+    fp ≤ argminFirst (ci.map (fun y => absRat (y - w))) ∧
+    argminFirst (ci.map (fun y => absRat (y - w))) ≤ last := by
+  have hne : ci.map (fun y => absRat (y - w)) ≠ [] := by
+    intro hh
+    have := congrArg List.length hh
+    rw [List.length_map, List.length_nil] at this
+    omega
+  obtain ⟨m, hm, hmin, hfirst⟩ := argminFirst_spec _ hne
+  generalize argminFirst (ci.map (fun y => absRat (y - w))) = a at *
+  have halt : a < ci.length := by
+    have := (List.getElem?_eq_some_iff.mp hm).1
+    rwa [List.length_map] at this
+  have hma : m = |ci[a] - w| := by
+    rw [List.getElem?_map, List.getElem?_eq_getElem halt, Option.map_some] at hm
+    injection hm with hm
+    rw [← hm, absRat_eq_abs]
+  have hinc := List.pairwise_iff_getElem.mp hp
+  constructor
+  · by_contra hlt
+    have hlt : a < fp := not_le.mp hlt
+    have h0 : 0 < fp := by omega
+    have hLw := hL h0
+    have hfp1 : fp - 1 < ci.length := by omega
+    have hfpl : fp < ci.length := by omega
+    have hya : ci[a] ≤ ci[fp - 1] := by
+      rcases Nat.lt_or_ge a (fp - 1) with h | h
+      · exact le_of_lt (hinc a (fp - 1) halt hfp1 h)
+      · have : a = fp - 1 := by omega
+        subst this
+        exact le_refl _
+    have hlt2 : ci[fp - 1] < ci[fp] := hinc (fp - 1) fp hfp1 hfpl (by omega)
+    have hmem : |ci[fp] - w| ∈ ci.map (fun y => absRat (y - w)) :=
+      List.mem_map.mpr ⟨ci[fp], List.getElem_mem _, absRat_eq_abs _⟩
+    have h1 := hmin _ hmem
+    rw [hma] at h1
+    have h2 : |ci[fp] - w| < w - ci[a] := by
+      rw [abs_lt]; constructor <;> linarith
+    have h3 : w - ci[a] ≤ |ci[a] - w| := by
+      have := neg_le_abs (ci[a] - w)
+      linarith
+    linarith
+  · by_contra hgt
+    have hgt : last < a := not_le.mp hgt
+    have hl1 : last + 1 < ci.length := by omega
+    have hUw := hU hl1
+    have hya : ci[last + 1] ≤ ci[a] := by
+      rcases Nat.lt_or_ge (last + 1) a with h | h
+      · exact le_of_lt (hinc (last + 1) a hl1 halt h)
+      · have : a = last + 1 := by omega
+        subst this
+        exact le_refl _
+    have hlt2 : ci[last] < ci[last + 1] := hinc last (last + 1) hlast hl1 (by omega)
+    have hd : (ci.map (fun y => absRat (y - w)))[last]? = some |ci[last] - w| := by
+      rw [List.getElem?_map, List.getElem?_eq_getElem hlast, Option.map_some, absRat_eq_abs]
+    have h1 := hfirst last hgt _ hd
+    rw [hma] at h1
+    have h2 : |ci[last] - w| < ci[a] - w := by
+      rw [abs_lt]; constructor <;> linarith
+    have h3 : ci[a] - w ≤ |ci[a] - w| := le_abs_self _
+    linarith
+
+theorem nnActiveBounds_ok {env : Env} {c : Consts} {d : NNDom} {act : List Val} {fp : ℕ}
+    {aL aU : Option ℚ} (hfp : firstPos d.cats (some act) = .ok (some fp))
+    (h : nnActiveBounds env c d (some act) = .ok (aL, aU)) :
+    ∃ lt rt, (d.catsInt env)[fp]? = some lt ∧ (d.catsInt env)[fp + act.length - 1]? = some rt ∧
+      aL = (if 0 < fp then
+              (match (d.catsInt env)[fp - 1]? with
+               | some p => some (lt - c.c499 * (lt - p))
+               | none => none)
+            else d.lowerInt env) ∧
+      aU = (if fp + act.length - 1 < d.cats.length - 1 then
+              (match (d.catsInt env)[fp + act.length - 1 + 1]? with
+               | some n => some (rt + c.c499 * (n - rt))
+               | none => none)
+            else d.upperInt env) := by
+  unfold nnActiveBounds at h
+  simp only [hfp] at h
+  split at h
+  · rename_i lt rt h1 h2
+    injection h with h
+    injection h with ha hb
+    exact ⟨lt, rt, h1, h2, ha.symm, hb.symm⟩
+  · cases h
+
+theorem firstPos_act_ne_nil {choices act : List Val} {fp : ℕ}
+    (hfp : firstPos choices (some act) = .ok (some fp)) : act ≠ [] := by
+  intro h
+  subst h
+  unfold firstPos at hfp
+  split at hfp
+  · cases hfp
+  · cases hfp
+
+/-- **active sub-range**: every `x` inside the `_ndarray_bounds` decodes to one of the active
+choices `choices[fp], …, choices[fp + len(active) - 1]` -/
+theorem ordnn_active {env : Env} {c : Consts} {choices : List Val} {log : Bool}
+    {act : List Val} {r : OrdNN} (hmk : mkOrdNN env c choices log (some act) = .ok r)
+    (heps : 0 ≤ c.eps) (h499 : c.c499 < 1 / 2) (hmono : LogMono env log)
+    {fp : ℕ} (hfp : firstPos choices (some act) = .ok (some fp))
+    {x : ℚ} (hx : r.rcont.bLo ≤ x ∧ x ≤ r.rcont.bHi) :
+    ∃ v i, r.decode env c x = .ok v ∧ fp ≤ i ∧ i < fp + act.length ∧ choices[i]? = some v := by
+  obtain ⟨hlen, hok, hdom, aL, aU, lo, hi, hb, hl, hu, hc⟩ := mkOrdNN_ok hmk
+  obtain ⟨core, hcore, hwb⟩ := mkCont_ok hc
+  obtain ⟨w, hw, hw1, hw2⟩ := cont_active hcore hwb heps (scaleOK_lin env lo hi) hx
+  have hfp' : firstPos (NNDom.mk choices log).cats (some act) = .ok (some fp) := hfp
+  obtain ⟨lt, rt, hlt, hrt, haL, haU⟩ := nnActiveBounds_ok hfp' hb
+  have hmono' : LogMono env (NNDom.mk choices log).log := hmono
+  have hp := nn_catsInt_pairwise hok hmono'
+  have hlenci : ((NNDom.mk choices log).catsInt env).length = choices.length :=
+    nn_catsInt_length env _
+  have hcl : (NNDom.mk choices log).cats.length = choices.length := rfl
+  have hactlen : 0 < act.length := List.length_pos_iff.mpr (firstPos_act_ne_nil hfp)
+  obtain ⟨hfplt, hlt'⟩ := List.getElem?_eq_some_iff.mp hlt
+  obtain ⟨hlastlt, hrt'⟩ := List.getElem?_eq_some_iff.mp hrt
+  generalize hci : (NNDom.mk choices log).catsInt env = ci at *
+  have hinc := List.pairwise_iff_getElem.mp hp
+  have hwin := argmin_window hp w (fp := fp) (last := fp + act.length - 1) hlastlt (by omega)
+    (by
+      intro h0
+      have hf1 : fp - 1 < ci.length := by omega
+      rw [if_pos h0, List.getElem?_eq_getElem hf1] at haL
+      simp only at haL
+      rw [haL] at hw1
+      simp only [Option.getD_some] at hw1
+      have hD : 0 < ci[fp] - ci[fp - 1] := by
+        have := hinc (fp - 1) fp hf1 hfplt (by omega)
+        linarith
+      have := mul_lt_mul_of_pos_right h499 hD
+      rw [← hlt'] at hw1
+      linarith)
+    (by
+      intro h1
+      have hcond : fp + act.length - 1 < (NNDom.mk choices log).cats.length - 1 := by omega
+      rw [if_pos hcond, List.getElem?_eq_getElem h1] at haU
+      simp only at haU
+      rw [haU] at hw2
+      simp only [Option.getD_some] at hw2
+      have hD : 0 < ci[fp + act.length - 1 + 1] - ci[fp + act.length - 1] := by
+        have := hinc (fp + act.length - 1) (fp + act.length - 1 + 1) hlastlt h1 (by omega)
+        linarith
+      have := mul_lt_mul_of_pos_right h499 hD
+      rw [← hrt'] at hw2
+      linarith)
+  have hidx : nnIdx env (NNDom.mk choices log) w =
+      argminFirst (ci.map (fun y => absRat (y - w))) := by
+    unfold nnIdx
+    rw [hci]
+    exact if_pos hlen
+  have hilt : nnIdx env (NNDom.mk choices log) w < choices.length := by
+    rw [hidx]; omega
+  refine ⟨choices[nnIdx env (NNDom.mk choices log) w], nnIdx env (NNDom.mk choices log) w, ?_,
+    by rw [hidx]; exact hwin.1, by rw [hidx]; omega, List.getElem?_eq_getElem hilt⟩
+  unfold OrdNN.decode OrdNN.decodePre
+  rw [hw, hdom]
+  exact nn_castInt_of_idx (List.getElem?_eq_getElem hilt)
+
+theorem zipAllEq_getElem? : ∀ {as bs : List Val}, zipAllEq as bs = true →
+    ∀ {j : ℕ} {a b : Val}, as[j]? = some a → bs[j]? = some b → a.pyEq b = true
+  | [], _, _, j, a, b, ha, _ => by simp at ha
+  | _ :: _, [], _, j, a, b, _, hb => by simp at hb
+  | a0 :: as, b0 :: bs, h, j, a, b, ha, hb => by
+    simp only [zipAllEq, Bool.and_eq_true] at h
+    cases j with
+    | zero =>
+      simp only [List.getElem?_cons_zero, Option.some.injEq] at ha hb
+      subst ha; subst hb; exact h.1
+    | succ j => exact zipAllEq_getElem? h.2 (by simpa using ha) (by simpa using hb)
+
+theorem firstPos_ok {choices act : List Val} {fp : ℕ}
+    (hfp : firstPos choices (some act) = .ok (some fp)) :
+    zipAllEq act (choices.drop fp) = true := by
+  cases act with
+  | nil => exact absurd rfl (firstPos_act_ne_nil hfp)
+  | cons a0 rest =>
+    unfold firstPos at hfp
+    split at hfp
+    · cases hfp
+    · simp only at hfp
+      split at hfp
+      · rename_i p hp
+        split at hfp
+        · rename_i hz
+          injection hfp with hfp
+          injection hfp with hfp
+          subst hfp
+          exact hz
+        · cases hfp
+      · cases hfp
+
+/-- the decoded value is (Python-)equal to one of the active choices -/
+theorem ordnn_active_pyIn {env : Env} {c : Consts} {choices : List Val} {log : Bool}
+    {act : List Val} {r : OrdNN} (hmk : mkOrdNN env c choices log (some act) = .ok r)
+    (heps : 0 ≤ c.eps) (h499 : c.c499 < 1 / 2) (hmono : LogMono env log)
+    {x : ℚ} (hx : r.rcont.bLo ≤ x ∧ x ≤ r.rcont.bHi) :
+    ∃ v, r.decode env c x = .ok v ∧ v ∈ choices ∧ pyIn v act = true := by
+  obtain ⟨_, _, _, aL, aU, _, _, hb, _, _, _⟩ := mkOrdNN_ok hmk
+  have hfp : ∃ fp, firstPos choices (some act) = .ok (some fp) := by
+    unfold nnActiveBounds at hb
+    simp only at hb
+    split at hb
+    · cases hb
+    · cases hb
+    · rename_i fp h; exact ⟨fp, h⟩
+  obtain ⟨fp, hfp⟩ := hfp
+  obtain ⟨v, i, hv, hi1, hi2, hiv⟩ := ordnn_active hmk heps h499 hmono hfp hx
+  refine ⟨v, hv, List.mem_of_getElem? hiv, ?_⟩
+  have hz := firstPos_ok hfp
+  have hj : i - fp < act.length := by omega
+  have hd : (choices.drop fp)[i - fp]? = some v := by
+    rw [List.getElem?_drop]
+    have : fp + (i - fp) = i := by omega
+    rw [this]; exact hiv
+  have hpe := zipAllEq_getElem? hz (List.getElem?_eq_getElem hj) hd
+  unfold pyIn
+  exact List.any_eq_true.mpr ⟨act[i - fp], List.getElem_mem hj, hpe⟩
 
 end SyneTune.Dom
